@@ -44,6 +44,9 @@ pub fn run(ctx: &Ctx) -> (Vec<Case>, String, bool, BTreeMap<String, String>) {
     // construction with a DMA allocation failing at every point, and drop: nothing is released that was
     // not allocated, nothing twice (C09's stream, its ledger failures)
     extra.extend(crate::c09_drop::fault_cases(ctx));
+    // …and against devices whose configuration space is cut off at every length (C09's stream): whichever
+    // read fails, nothing the device still refers to is released
+    extra.extend(crate::c09_drop::trunc_cases(ctx, "C07"));
     for c in extra.iter_mut() {
         c.oracle_failures.retain(|f| relevant(f));
         for f in c.oracle_failures.iter_mut() {
